@@ -471,10 +471,11 @@ func main() {
 	opaqueCases(w, g, total*3/100)
 	userCodeCases(w, g, max(8, total/100))
 	credSkipped := credCases(w, g, max(128, total*8/100))
+	serverExtra := serverCases(w, g, max(140, total*8/100))
 
 	err = w.Close(emit.Meta{Property: "C09", Tier: cfg.Tier, Seed: cfg.Seed,
-		Rule:  "seeded structured fuzz, no coverage guidance. decode: JSON ASTs (well-typed members + wrong-typed / null / huge / nested / duplicate members, invalid UTF-8) serialised by the harness and fed to json.Unmarshal of each library type; verify: JWTs (provider-signed, foreign, none, garbage) around those payloads plus null / scalar / array / truncated payloads, wrong segment counts, bad base64, on the six verifier entry points; handler: request shapes (entry x endpoint/grant x form ok x Basic header kind x main parameter x client_id x first storage call fails) on Provider router, LegacyServer router and directly called grant handlers; hint: id_token_hint tokens (issuer right / wrong, signature right / wrong, exp and iat absent / past / future) at end_session and authorize on both routers; code: redemption of a live code (public / confidential client x challenge stored or not x verifier none / right / wrong) on both routers; exit: valid authenticated revocation / introspection / userinfo requests whose k-th storage call fails (error or deadline); route: flow-first requests (a fresh code flow per case with random optional parts - challenge none / S256 / plain, nonce, state, scopes, max_age, zero auth time, empty amr / audience, not logged in -; live tokens / device codes approved, denied, pending) with mutations on every route x method x header x body of both routers, one third of them with an injected storage fault (k-th call or every call of one method, error or deadline); device: device authorization answer (interval absent / null / 0 / negative / 1 / 2 / huge / wrongly typed, expires_in likewise) then client.PollDeviceAccessTokenEndpoint against token answers (success, pending, slow_down, refusals, garbage) under a 300 ms deadline and a 10 s hang guard; opaque: crypto.DecryptAES on strings of n alphabet characters, m CR/LF and optionally a foreign character around the 16-byte / 22-character thresholds; client: provider answers (status x body AST / truncated) through a stub RoundTripper into the client helpers; bearer: GET /userinfo with an Authorization header built around a live token (non-UTF-8 bytes, runes whose case mapping changes the length, other scheme spellings, repeated / prefix-only schemes, junk after the token) on both routers, the token oracle asked through the form parameter; auth: otherwise valid requests with live artefacts on the eight endpoints that accept client credentials x router x private_key_jwt on / off x assertion type (jwt-bearer / absent / other) x assertion (absent / valid / failing before / at the key lookup) x Basic - the failing-assertion block enumerated first -, one third free-form (several transports at once from their own catalogues, any owner of the artefacts, a parameter missing; also endpoints without client authentication); route fuzz additionally with hostile values in every header the library reads, on three providers (static issuer, issuer from forwarding headers, private_key_jwt off); reqobj: valid authorization requests (GET / POST, both routers, RequestObjectSupported on / off) carrying a request object whose claims are consistent or inconsistent one check at a time, signed with the registered key / a foreign key / an unknown kid / garbage / alg none, payload also non-objects with white space around them (consistent-claims block first); chain additionally serves half of the answers as raw bytes from a TCP listener (hostile status lines, framing, header blocks; every helper x {099, 000, 100, 199, 204, 304, 600, 999} first); redirect: authorization requests of clients registered per case (native / web / user agent, dev mode, 1-4 redirect URIs mixing https, http loopback, private-use schemes, unparsable entries, globs) with a requested URI near one of them (other port / path / host / query / scheme); every client-side call runs under a watchdog whose expiry is the outcome CHang / RHang, the remote key set is called twice on one instance against well-formed key sets without a usable key / with duplicates; forwarded: 1-2 lines of the forwarding headers (host values bare and quoted) on the provider whose issuer comes from them; chain: composed relying-party / token-exchange / JWT-profile helpers and the callback handler (Cookie x query x token answer x userinfo answer x response headers such as Location) behind a path-routing stub; cred: a client registered per case whose id and secret are arbitrary bytes (space, '+', '%', ':', '=', '&', non-ASCII, invalid UTF-8, NUL, 300 bytes, base64) sends an otherwise valid request with its own live artefacts (minted with form credentials) to one of the eight endpoints that accept client credentials on either router, the credentials in a Basic header whose payload is conforming (both halves form-urlencoded) / raw / path-escaped / every byte %XX / doubly escaped / with a malformed escape / wrong secret / wrong id / without a colon / half raw / space as %20 / literal '+', or in the form (right, wrong, empty, escaped once more) - every decoding site x {conforming value with space and '+', raw '+'} enumerated first. Non-trivial = model path class != 0 (not: null document, wrong segment count, missing grant_type); distinct = distinct input term.",
-		Extra: map[string]any{"router_fixture": "opfix.NewStd, all capabilities", "clock_ambiguous": ambiguous, "cred_skipped": credSkipped},
+		Rule:  "seeded structured fuzz, no coverage guidance. decode: JSON ASTs (well-typed members + wrong-typed / null / huge / nested / duplicate members, invalid UTF-8) serialised by the harness and fed to json.Unmarshal of each library type; verify: JWTs (provider-signed, foreign, none, garbage) around those payloads plus null / scalar / array / truncated payloads, wrong segment counts, bad base64, on the six verifier entry points; handler: request shapes (entry x endpoint/grant x form ok x Basic header kind x main parameter x client_id x first storage call fails) on Provider router, LegacyServer router and directly called grant handlers; hint: id_token_hint tokens (issuer right / wrong, signature right / wrong, exp and iat absent / past / future) at end_session and authorize on both routers; code: redemption of a live code (public / confidential client x challenge stored or not x verifier none / right / wrong) on both routers; exit: valid authenticated revocation / introspection / userinfo requests whose k-th storage call fails (error or deadline); route: flow-first requests (a fresh code flow per case with random optional parts - challenge none / S256 / plain, nonce, state, scopes, max_age, zero auth time, empty amr / audience, not logged in -; live tokens / device codes approved, denied, pending) with mutations on every route x method x header x body of both routers, one third of them with an injected storage fault (k-th call or every call of one method, error or deadline); device: device authorization answer (interval absent / null / 0 / negative / 1 / 2 / huge / wrongly typed, expires_in likewise) then client.PollDeviceAccessTokenEndpoint against token answers (success, pending, slow_down, refusals, garbage) under a 300 ms deadline and a 10 s hang guard; opaque: crypto.DecryptAES on strings of n alphabet characters, m CR/LF and optionally a foreign character around the 16-byte / 22-character thresholds; client: provider answers (status x body AST / truncated) through a stub RoundTripper into the client helpers; bearer: GET /userinfo with an Authorization header built around a live token (non-UTF-8 bytes, runes whose case mapping changes the length, other scheme spellings, repeated / prefix-only schemes, junk after the token) on both routers, the token oracle asked through the form parameter; auth: otherwise valid requests with live artefacts on the eight endpoints that accept client credentials x router x private_key_jwt on / off x assertion type (jwt-bearer / absent / other) x assertion (absent / valid / failing before / at the key lookup) x Basic - the failing-assertion block enumerated first -, one third free-form (several transports at once from their own catalogues, any owner of the artefacts, a parameter missing; also endpoints without client authentication); route fuzz additionally with hostile values in every header the library reads, on three providers (static issuer, issuer from forwarding headers, private_key_jwt off); reqobj: valid authorization requests (GET / POST, both routers, RequestObjectSupported on / off) carrying a request object whose claims are consistent or inconsistent one check at a time, signed with the registered key / a foreign key / an unknown kid / garbage / alg none, payload also non-objects with white space around them (consistent-claims block first); chain additionally serves half of the answers as raw bytes from a TCP listener (hostile status lines, framing, header blocks; every helper x {099, 000, 100, 199, 204, 304, 600, 999} first); redirect: authorization requests of clients registered per case (native / web / user agent, dev mode, 1-4 redirect URIs mixing https, http loopback, private-use schemes, unparsable entries, globs) with a requested URI near one of them (other port / path / host / query / scheme); every client-side call runs under a watchdog whose expiry is the outcome CHang / RHang, the remote key set is called twice on one instance against well-formed key sets without a usable key / with duplicates; forwarded: 1-2 lines of the forwarding headers (host values bare and quoted) on the provider whose issuer comes from them; chain: composed relying-party / token-exchange / JWT-profile helpers and the callback handler (Cookie x query x token answer x userinfo answer x response headers such as Location) behind a path-routing stub; cred: a client registered per case whose id and secret are arbitrary bytes (space, '+', '%', ':', '=', '&', non-ASCII, invalid UTF-8, NUL, 300 bytes, base64) sends an otherwise valid request with its own live artefacts (minted with form credentials) to one of the eight endpoints that accept client credentials on either router, the credentials in a Basic header whose payload is conforming (both halves form-urlencoded) / raw / path-escaped / every byte %XX / doubly escaped / with a malformed escape / wrong secret / wrong id / without a colon / half raw / space as %20 / literal '+', or in the form (right, wrong, empty, escaped once more) - every decoding site x {conforming value with space and '+', raw '+'} enumerated first; server: op.RegisterServer (half with op.WithDecoder) over a Server that embeds op.UnimplementedServer and implements a SUBSET of the interface by delegating to op.LegacyServer - empty (op.UnimplementedServer itself), all, each single method, all but one method, a statically partial type, random subsets - on every route (health, ready, discovery, keys, authorize, device authorization, the six grants, missing / unknown grant, introspection, userinfo, revocation, end session, unknown path) with a valid request of web / web2 / native / pkjwt carrying live artefacts and 0-2 mutations (parameter dropped / duplicated / unparsable / junk / 70 kB, other Authorization headers, hostile tokens, HTTP method, content type, every grant_type, client assertions, parameters of other flows); ground truth = trace of Server calls and answer of the FULL implementation on a twin fixture for the same request; plus 7 sampled errors.Is checks of StatusError.Is on UnimplementedServer's errors. Non-trivial = model path class != 0 (not: null document, wrong segment count, missing grant_type); distinct = distinct input term.",
+		Extra: map[string]any{"router_fixture": "opfix.NewStd, all capabilities", "clock_ambiguous": ambiguous, "cred_skipped": credSkipped, "server": serverExtra},
 	})
 	if err != nil {
 		fmt.Fprintln(os.Stderr, err)
